@@ -45,6 +45,9 @@ class P(ServeProp):
         for i in range(n):
             r = rnd.random()
             m = {}
+            if rnd.random() < 0.04:
+                # a long value of multi-byte characters: the target passes 1024, 2048 and 4096 bytes inside a character
+                m[rnd.choice(["k", "kk", "name"])] = rnd.choice(["漢", "😀", "é", "日本"]) * rnd.choice([400, 700, 1400])
             for _ in range(rnd.choice([0, 1, 2, 3, 5, 20])):
                 k = self.text(rnd, 6, allow_empty=False)
                 if k:
